@@ -30,12 +30,15 @@ def gen_map(rng, depth_dir, big=False):
             t = rng.choice("01579gIhis")
             desc = rng.choice(WORDS)
             form = rng.randrange(7)
+            if rng.random() < 0.12:
+                # characters that end a line for str.splitlines() and not for readline(): part of the description
+                desc = desc + rng.choice(["\x0c", "\x0b", "\x1c", "\x1e", "\u0085", "\u2028", "\u2029"]) + "tail"
             if form == 0:      # description + explicit empty selector
                 lines.append(f"{t}{desc}\t")
             elif form == 1:    # absolute local
                 lines.append(f"{t}{desc}\t/{rng.choice(LOCAL)}")
-            elif form == 2:    # relative
-                lines.append(f"{t}{desc}\t{rng.choice(LOCAL)}")
+            elif form == 2:    # relative (some look like URLs, fragments or queries: they are file names)
+                lines.append(f"{t}{desc}\t{rng.choice(LOCAL + ['Re:answer.txt', 'C#', 'what-now?', 'a//b', 'x y', 'mailto:me'])}")
             elif form == 3:    # remote with host and port
                 lines.append(f"{t}{desc}\t{rng.choice(['/', '/x y', '', 'rel'])}\t{rng.choice(['example.org', 'gopher.floodgap.com'])}\t{rng.choice(['70', '7070', ' 70 '])}")
             elif form == 4:    # host only / port only / empty host
